@@ -374,9 +374,15 @@ class SessionManager:
         '''Refresh the cached header subscription responses to be for height,
         and record that as notified_height.
         '''
-        # Paranoia: a reorg could race and leave db_height lower
-        height = min(height, self.db.state.height)
-        raw = await self.raw_header(height)
+        while True:
+            # Paranoia: a reorg could race and leave db_height lower
+            height = min(height, self.db.state.height)
+            try:
+                raw = await self.raw_header(height)
+                break
+            except RPCError:
+                # A reorg lowered the height whilst the header was being read
+                pass
         self.hsub_results = {'hex': raw.hex(), 'height': height}
         self.notified_height = height
 
